@@ -77,16 +77,15 @@ def seq_bucket_edges(r, n, u):
 
 
 def seq_ends(r, n, u):
-    """first elements 0, last elements u"""
-    a = r.randrange(n + 1)
-    mid = sorted(r.randrange(u + 1) for _ in range(n))
+    """several first elements equal to 0, several last elements equal to u"""
+    out = sorted(r.randrange(u + 1) for _ in range(n))
     z = r.randrange(0, max(1, n // 3) + 1)
-    out = [0] * min(z, n) + mid[: max(0, n - z)]
-    out = sorted(out)
     t = r.randrange(0, max(1, n // 3) + 1)
+    for j in range(min(z, n)):
+        out[j] = 0
     for j in range(min(t, n)):
         out[n - 1 - j] = u
-    return sorted(out) if a >= 0 else out
+    return sorted(out)
 
 
 SHAPES = [seq_uniform, seq_runs, seq_clusters, seq_bucket_edges, seq_ends]
@@ -407,6 +406,25 @@ def reject_episodes(seed, count):
     return eps
 
 
+def short_build_episodes(seed, count):
+    """a sequential builder finished before all n declared values arrived"""
+    r = random.Random(seed ^ 0xEF05)
+    eps = []
+    for _ in range(count):
+        n = r.choice([1, 2, 3, 5, 64, 65, 200])
+        u = r.choice([0, 1, 10, 1000, 2 ** 32, M])
+        xs = make_seq(r, n, u)
+        k = r.choice([0, 0, n - 1, n // 2, r.randrange(n)])
+        kind = r.choice(ALL_KINDS)
+        ops = [{"op": "new", "n": n, "u": L(u)}]
+        ops += [{"op": "push", "x": L(x)} for x in xs[:k]] if r.random() < 0.5 else [{"op": "extend", "xs": [L(x) for x in xs[:k]]}]
+        ops.append({"op": "build", "kind": kind})
+        ops += battery(r, xs[:k], u, kind, cap=4)
+        ops += [{"op": "get", "i": i} for i in (k, n - 1, n)] + [{"op": "iter_from", "k": k}, {"op": "iter_from", "k": n}]
+        eps.append(episode("short", ops))
+    return eps
+
+
 # --------------------------------------------------------------------------
 # C11: space
 # --------------------------------------------------------------------------
@@ -486,10 +504,10 @@ def conc_episodes(seed, count, maxn=1500):
     r = random.Random(seed ^ 0xEF13)
     eps = []
     for c in range(count):
-        n = r.choice([0, 1, 2, 3, 7, 64, 65, 129, 300, 1000, maxn])
+        n = r.choice([0, 1, 2, 3, 7, 64, 65, 129, 300, 1000, 1000, maxn, maxn])
         n = min(n, maxn)
         # lower-bit widths whose fields share words and straddle word boundaries
-        l = r.choice([0, 1, 3, 5, 7, 13, 21, 31, 33, 47, 57])
+        l = r.choice([0, 1, 1, 2, 3, 3, 5, 7, 13, 21, 31, 33, 47, 57])
         u = min(M, max(n, 1) * (1 << l) + r.choice([0, 1, (1 << l) - 1]))
         xs = make_seq(r, n, u)
         kind = r.choice(["plain", "seq", "seqdict", "seqdict_c", "seq_adapt"])
@@ -508,7 +526,7 @@ def conc_episodes(seed, count, maxn=1500):
                 ops.append({"op": r.choice(["succ", "pred", "index_of"]), "q": L(q)})
         if kind == "plain":
             ops.append({"op": "mem_size"})
-        eps.append(episode("conc", ops, budget_ms=60000))
+        eps.append(episode("conc", ops, budget_ms=60000, jitter=(c % 4 != 3)))
     return eps
 
 
